@@ -9,6 +9,7 @@ otherwise the pair proves nothing and is counted inconclusive. Outputs are compa
 of values (JSON parsed by Python; YAML output re-loaded with `yq -o json`), numbers as doubles,
 key order and result count exact. Byte-level differences are counted as presentation_diffs.
 """
+import json
 import random
 import re
 
@@ -53,6 +54,11 @@ def check_jq(rep, binary, doc, prog, flags, forcing):
         return
     rep.count(f"jq.routes.{ra}|{rb}")
     if a.crashed or b.crashed:
+        if (not a.crashed) and b.rc == 101 and b"nesting depth exceeds limit of 256" in b.err:
+            # same root cause as the C19 CLI finding: the materialising route hits the library's depth guard panic
+            rep.violation("C27:jq:materialised_route_depth_guard_panic",
+                          f"jq {flags} {prog!r}: lazy route rc {a.rc}, materialised route exit 101 (depth guard panic)", replay)
+            return
         rep.violation("C27:jq:crash", f"jq {flags} {prog!r}: rc {a.rc}/{b.rc}", replay)
         return
     if (a.rc == 0) != (b.rc == 0):
@@ -210,6 +216,21 @@ def run(leg, seed, tier, replay=None):
         doc = bytes.fromhex(d["text_hex"])
         for prog in navgen.nav_programs(rnd, d["val"], 4):
             jobs.append(("jq", doc, prog, rnd.choice(JQ_FLAGS), rnd.choice(["comment", "paren_comment", "pipe_comment"]), d["nodes"]))
+    # wide objects (> 16 fields) with a duplicated key and look-alike keys in between (the lazy printer probes
+    # for duplicates by span fingerprint), and results nested right up to the printer's documented depth (256)
+    for i in range(24 if tier == "quick" else 300):
+        n = rnd.choice([17, 18, 21, 30, 40])
+        keys = [f"k{rnd.randint(10, 99)}" for _ in range(n)]
+        keys[rnd.randrange(n // 2, n)] = keys[rnd.randrange(0, n // 2)]
+        body = ",".join(f"{json.dumps(k)}:{j}" for j, k in enumerate(keys))
+        wide = ("{" + body + "}").encode()
+        nested = ('{"f":' + "{" + body + "}" + ',"g":[' + "{" + body + "}" + "]}").encode()
+        for doc, prog in ((wide, "."), (nested, ".f"), (nested, ".g[0]"), (nested, ".g[]"), (nested, ".")):
+            jobs.append(("jq", doc, prog, rnd.choice([[], ["-c"]]), "comment", 20))
+    for depth in (250, 254, 255, 256):
+        for doc in (b"[" * depth + b"]" * depth, b'{"a":' * (depth - 1) + b"1" + b"}" * (depth - 1), b"[" * (depth - 1) + b'{"a":1}' + b"]" * (depth - 1)):
+            jobs.append(("jq", doc, ".", ["-c"], "comment", depth))
+            jobs.append(("jq", doc, ".[0]?", ["-c"], "paren_comment", depth))
     for d in nodup:
         doc = bytes.fromhex(d["text_hex"])
         for prog in navgen.nav_programs(rnd, d["val"], 3):
